@@ -64,6 +64,8 @@ func mkLayout(dir string) (*layout, error) {
 		"outside.ecal", "in.ecal", "root/in.ecal", "root/sub/in.ecal", "root/..x/in.ecal",
 		"root/a b/in.ecal", "rootx/in.ecal", "root/root/in.ecal", "root/rootx/in.ecal",
 		"root/sub/deeper/in.ecal", "root/sub/sub/in.ecal", "sub/in.ecal",
+		// files named like a directory plus the source extension, next to it
+		"root.ecal", "rootx.ecal", "root/sub.ecal", "root/sub/deeper.ecal", "root/in.ecal.ecal", "outside.ecal.ecal", "sub.ecal",
 	}
 	for _, f := range files {
 		p := filepath.Join(dir, f)
